@@ -100,8 +100,9 @@ def io_trees(r, seed, tier, model_ok):
     cases = []; shared = 0
     while len(cases) < n:
         t, leaves, su = io_text_closed(R, R.randrange(1, 6))
-        lines = [R.choice(["a", "bc", "", "12", "한글", "x y", "😀"]) for _ in range(R.randrange(0, 5))]
-        cases.append(dict(text=t, stdin=lines, leaves=leaves)); shared += su > 1
+        # a line is everything before its line feed: carriage returns, blanks and tabs at its end belong to it; the last line may lack the line feed
+        lines = [R.choice(["a", "bc", "", "12", "한글", "x y", "😀", "ab\r", "\r", "a\rb", "c ", "\t", "d\r\r", "\x0b", "e\x0c", "f\x1c", "\x85", "g\u2028"]) for _ in range(R.randrange(0, 5))]
+        cases.append(dict(text=t, stdin=lines, leaves=leaves, noeol=bool(lines) and lines[-1] != "" and R.random() < .15)); shared += su > 1
     a = impl_run(cases)
     if not model_ok: return
     b = model_run(cases)
@@ -182,6 +183,53 @@ def small_core(r, seed, tier, model_ok):
     dist, bad = compare(cases, a, b)
     r.slice("small_core", len(cases), len({c["text"] for c in cases if len(c["text"].split()) >= 3}), [cases[len(cases) // 2]["text"], cases[-1]["text"]], dict(outcomes=dict(dist), node_budget=budget, exhaustive=exhaustive),
             f"every closed core program of <= {budget} nodes over literals {lits} (bounded-exhaustive{'' if exhaustive else ', sampled'}); distinct = texts of >= 3 words", bad)
+
+def closure_factories(r, seed, tier, model_ok):
+    """functions that return functions, 2-4 levels deep, levels of arity 0 / 1 / 2 in every arrangement (a ZERO-argument level in the middle
+    included); the innermost body lists arguments of every level.  ONE factory value is applied several times with DIFFERENT arguments per level -
+    fully each time, or through a shared partial application - and all results are used, in both orders.  The expected lists are computed
+    from the arguments alone (what lexical scoping means), and the programs also go to the model."""
+    R = random.Random(seed * 7919 + 0xC02 + 11); E = G.enc; cases = []; want = []; shapes = collections.Counter()
+    def lst(xs): return "(" + " ".join(xs) + f" ㅁㄹ ㅎ{E(len(xs))})"
+    def apply_levels(f, args_per_level):
+        t = f
+        for a in args_per_level: t = "(" + " ".join(E(x) for x in a) + (" " if a else "") + f"{t} ㅎ{E(len(a))})"
+        return t
+    n = N(tier, 600, 12000)
+    while len(cases) < n:
+        k = R.randrange(2, 5); ar = [R.choice([0, 0, 1, 1, 2]) for _ in range(k)]
+        slots = [(j, p) for j in range(k) for p in range(ar[j])]
+        if not slots: continue
+        refs = [R.choice(slots) for _ in range(R.randrange(1, 4))]
+        body = lst([f"{E(p)}ㅇ{E(k - 1 - j)}" for j, p in refs])
+        fac = body
+        for _ in range(k): fac = f"({fac} ㅎ)"
+        m = R.randrange(2, 5); style = R.choice(["full", "full", "shared-prefix", "reversed"])
+        def fresh_args(): return [[R.randrange(-3, 9) for _ in range(a)] for a in ar]
+        apps = []; exp = []
+        if style == "shared-prefix" and k >= 2:
+            cut = R.randrange(1, k); pre = fresh_args()[:cut]
+            g = apply_levels("ㄱㅇㄱ", pre)                         # f(pre...) evaluated once in the outer body, bound to g = ㄱㅇㄱ of an inner function
+            uses = []
+            for _ in range(m):
+                rest = fresh_args()[cut:]; uses.append(apply_levels("ㄱㅇㄱ", rest)); full = pre + rest; exp.append([full[j][p] for j, p in refs])
+            inner = f"({g} ({lst(uses)} ㅎ) ㅎㄴ)"
+            prog = f"{fac} ({inner} ㅎ) ㅎㄴ"
+        else:
+            for _ in range(m):
+                a = fresh_args(); apps.append(apply_levels("ㄱㅇㄱ", a)); exp.append([a[j][p] for j, p in refs])
+            prog = f"{fac} ({lst(apps if style != 'reversed' else list(reversed(apps)))} ㅎ) ㅎㄴ"
+            if style == "reversed": exp = list(reversed(exp))
+        cases.append(dict(text=prog)); want.append("[" + ", ".join("[" + ", ".join(str(x) for x in e) + "]" for e in exp) + "]")
+        shapes["".join(str(a) for a in ar) + ":" + style] += 1
+    a = impl_run(cases)
+    bad0 = [dict(program=c["text"], impl=vlib.decode_v(o.split("\t")[0])[:200], model=f"V {w} (each returned function sees the arguments of the activation that defined it)", which=["lexical-scope"])
+            for c, o, w in zip(cases, a, want) if vlib.decode_v(o.split("\t")[0]) != "V " + w]
+    r.slice("closure_factories_oracle", len(cases), len({c["text"] for c in cases}), [cases[0]["text"], cases[1]["text"]], dict(shapes=len(shapes), zero_arity_middle=sum(v for s, v in shapes.items() if "0" in s.split(":")[0][1:-1] or (len(s.split(":")[0]) == 2 and "0" in s.split(":")[0]))),
+            "functions returning functions (2-4 levels, arities 0-2 in every arrangement) applied 2-4 times with different arguments, fully or through a shared partial application; expected lists computed from the arguments alone", bad0[:40])
+    if model_ok:
+        b = model_run(cases); dist, bad = compare(cases, a, b)
+        r.slice("closure_factories_vs_model", len(cases), len({c["text"] for c in cases}), [cases[2]["text"]], dict(outcomes=dict(dist)), "the same programs: result and complete event trace vs the model", bad)
 
 # ------------------------------------------------------------------ C11 integer kernels against exact rational arithmetic
 def int_kernels(r, seed, tier, model_ok):
